@@ -82,7 +82,7 @@ def _selftest(run, ro, units):
     u = {x.name: x for x in units}
     it = S.Conv(0, u["celsius"], "int64_t", u["milli_kelvins"], "int64_t", ro["disp"][("celsius", "milli_kelvins")]["disp"])
     it.kd += 1
-    it.ops[core.GXX14.name] = {"ci": True, "pol": False}
+    it.ops[core.GXX14.name] = {"ci": True, "pol": False, "ctor": False}
     it.iv = [(-5, 5)]
     stats, viols = S.build_and_run(run.wd, core.GXX14, "selftest", [it], [], nsplit=1)
     if not any(v["kind"] == "conversion" for v in viols):
@@ -142,6 +142,11 @@ def check(run):
         nacc += a
         nrej += r
     phases["domain_probes"] = round(run.elapsed() - t0, 1)
+    # an implicit point conversion that is declared (is_convertible) but ill-formed when actually performed says nothing
+    # about C09 (which conversions are implicit is C06's subject, finding F13): counted, never judged here
+    ill_formed_ctor = sorted({it.desc() for cfg, _, _, parts in sweeps for it in insts
+                              if it.kind == "conv" and "ctor" in it.ops.get(cfg.name, {})
+                              and not it.ops[cfg.name]["ctor"] and not it.ops[cfg.name]["noctor"]})
     big = 2 ** 15
     pbig = 2 ** 11
     pbig_core = 2 ** 11 if quick else 2 ** 12
@@ -211,6 +216,8 @@ def check(run):
                                                            for r in sorted({it.static_out for it in insts if it.static_out})},
         "instances_swept_first_build": swept_by_kind,
         "instances_without_any_judged_value": sum(1 for s in first if s["judged"] == 0),
+        "implicit_ctor_declared_but_ill_formed_not_judged": ill_formed_ctor[:10],
+        "conv_instances_with_implicit_ctor_swept": sum(1 for it in insts if it.kind == "conv" and it.ops.get(sweeps[0][0].name, {}).get("ctor")),
         "conv_instances_with_policy_checked_in_as": sum(1 for it in insts if it.kind == "conv" and it.ops.get(sweeps[0][0].name, {}).get("pol")),
         "pair_instances_with_spaceship": sum(1 for it in insts if it.kind == "pair" and any(o.get("ss") for o in it.ops.values())),
         "units": [u.name for u in units], "quantity_units": [u.name for u in qunits], "reps": S.REPS,
